@@ -349,6 +349,29 @@ def parse(text: str) -> DotGraph:
     return _Parser(tokenize(text), text).graph()
 
 
+def homes(g: DotGraph) -> tuple[dict[str, tuple[str, ...]], int]:
+    """node id -> path of the cluster it is drawn in, and the number of nodes
+    that are mentioned in clusters that are not nested in one another.
+    Membership should be one chain of nested clusters; otherwise the first
+    cluster in text order counts (graphviz keeps a node in the first cluster
+    it meets it in and drops it from the others)."""
+    out: dict[str, tuple[str, ...]] = {}
+    multi = 0
+    for nid, nd in g.nodes.items():
+        clusters = [p for p in nd.member if p[-1].startswith("cluster")]
+        home: tuple[str, ...] = ()
+        if clusters:
+            deepest = max(clusters, key=len)
+            if all(deepest[:len(p)] == p for p in clusters):
+                home = deepest
+            else:
+                multi += 1
+                first = clusters[0]
+                home = max((p for p in clusters if p[:len(first)] == first), key=len)
+        out[nid] = home
+    return out, multi
+
+
 # --------------------------------------------------------------------------
 # labels
 
